@@ -41,14 +41,27 @@ type env struct {
 
 func newEnv() *env {
 	e := &env{}
-	evt.Deliver = func(ti, slot, id int, ctx context.Context) {}
+	// event 66 makes every handler that receives it panic (the bus recovers it)
+	evt.Deliver = func(ti, slot, id int, ctx context.Context) {
+		if id == 66 {
+			panic("handler panics on event 66")
+		}
+	}
 	evt.FilterHook = nil
 	e.ms = eventbus.NewMemoryStore()
 	e.bus = eventbus.New(eventbus.WithStore(e.ms))
-	bp.Types[0].Sub(e.bus, 0, evt.SubOpts{})
-	bp.Types[1].Sub(e.bus, 0, evt.SubOpts{Async: true})
-	extraType().Sub(e.bus, 0, evt.SubOpts{Async: true, Sequential: true})
-	bp.Types[2].Sub(e.bus, 0, evt.SubOpts{Once: true})
+	subscribeAll := func() {
+		bp.Types[0].Sub(e.bus, 0, evt.SubOpts{})
+		bp.Types[1].Sub(e.bus, 0, evt.SubOpts{Async: true})
+		extraType().Sub(e.bus, 0, evt.SubOpts{Async: true, Sequential: true})
+		bp.Types[2].Sub(e.bus, 0, evt.SubOpts{Once: true})
+		bp.Types[2].Sub(e.bus, 3, evt.SubOpts{Sequential: true})
+	}
+	// the registry has a past too: everything was subscribed, removed with ClearAll and
+	// subscribed again (whatever ClearAll leaves behind is what the tasks work on)
+	subscribeAll()
+	eventbus.ClearAll(e.bus)
+	subscribeAll()
 	eventbus.RegisterUpcastFunc(e.bus, "old", "new", func(d json.RawMessage) (json.RawMessage, string, error) { return d, "new", nil })
 	e.ms.Append(context.Background(), &eventbus.Event{Type: "old", Data: json.RawMessage(`{}`), Timestamp: time.Unix(1, 0)})
 	bp.Types[0].Pub(e.bus, 1)
@@ -111,6 +124,11 @@ func actions() []action {
 			cancel()
 			extraType().PubCtx(e.bus, ctx, 8)
 		}},
+		// event 66 makes its handlers panic: the synchronous Sequential handler of the third
+		// type, the Async+Sequential handler of the fourth
+		{"PublishPanicsSequential", func(e *env) { bp.Types[2].Pub(e.bus, 66) }},
+		{"PublishPanicsAsyncSeq", func(e *env) { extraType().Pub(e.bus, 66) }},
+		{"SubscribeOtherShard", func(e *env) { bp.Types[2].Sub(e.bus, 1, evt.SubOpts{}) }},
 		{"Subscribe", func(e *env) { bp.Types[0].Sub(e.bus, 1, evt.SubOpts{}) }},
 		{"SubscribeAsync", func(e *env) { bp.Types[1].Sub(e.bus, 1, evt.SubOpts{Async: true}) }},
 		{"Unsubscribe", func(e *env) { bp.Types[0].Unsub(e.bus, 0, false) }},
